@@ -87,10 +87,18 @@ async fn handle_connection(
             // handler set its own; no response query buffer either way.
             let echo = crate::message::response_echo_query(&resp, view.query);
             if let Some(dur) = write_timeout {
-                timeout(dur, write_view_response(&mut writer, &resp, echo))
-                    .await
-                    .ok();
-                timeout(dur, writer.flush()).await.ok();
+                // A timed-out write may already have put part of the frame on
+                // the wire, and nothing may follow a torn frame: end the
+                // connection (as a read timeout does) instead of answering
+                // the next request after it.
+                match timeout(dur, write_view_response(&mut writer, &resp, echo)).await {
+                    Ok(r) => r?,
+                    Err(_) => return Ok(()),
+                }
+                match timeout(dur, writer.flush()).await {
+                    Ok(r) => r?,
+                    Err(_) => return Ok(()),
+                }
             } else {
                 write_view_response(&mut writer, &resp, echo).await?;
                 writer.flush().await?;
